@@ -50,7 +50,10 @@ def worker_trace(queue_arg, callback_events, report_queue_arg=None, flag_before_
             gets = [e for e in seg if e[0] == "q_get" and _is(e[1], q)]
             empties = [e for e in seg if e[0] == "q_get_empty" and _is(e[1], q)]
             ended = any(e[0] in ("loop_iter_end", "loop_break") and e[1] == 0 for e in seg)
-            broke = any(e[0] == "loop_break" and e[1] == 0 for e in seg)
+            # leaving the loop by ``break`` or by ``return`` from inside the iteration is the same thing
+            returned_inside = (outcome == "return" and not ended)
+            broke = any(e[0] == "loop_break" and e[1] == 0 for e in seg) or returned_inside
+            ended = ended or returned_inside
             path.oblige(m.oblname("worker/one_receive_attempt_per_iteration"),
                         z3.BoolVal(len(gets) + len(empties) == 1), kind="trace", assume_after=False)
             if gets and ended and outcome != "raise":
@@ -91,8 +94,10 @@ def worker_trace(queue_arg, callback_events, report_queue_arg=None, flag_before_
                                 kind="trace", assume_after=False)
         if outcome == "return":
             # normal return only through the break above
+            in_iter = any(e[0] == "loop_iter" and e[1] == 0 for e in ev) and not any(
+                e[0] in ("loop_iter_end", "loop_exit") and e[1] == 0 for e in ev)
             path.oblige(m.oblname("worker/returns_only_via_shutdown"),
-                        z3.BoolVal(any(e[0] == "loop_break" and e[1] == 0 for e in ev)), kind="trace", assume_after=False)
+                        z3.BoolVal(any(e[0] == "loop_break" and e[1] == 0 for e in ev) or in_iter), kind="trace", assume_after=False)
 
     return hook
 
